@@ -764,7 +764,7 @@ def choose_quick(recs, seed):
         cands = [r for r in msgs if k in r["kinds"] and r["shape"] == "roundtrip"]
         if cands:
             cands.sort(key=weight)
-            take(rnd.choice(cands[: max(1, len(cands) // 2)]))
+            take(rnd.choice(cands[:3]))
     # 2. every crate x family x shape present at least once for roundtrip; every crate has reject and total
     for crate in CRATES:
         for fam in ("sys", "game", "connless"):
@@ -772,18 +772,19 @@ def choose_quick(recs, seed):
                 cands = [r for r in msgs if r["crate"] == crate[0] and r["family"] == fam and r["shape"] == "roundtrip"]
                 if cands:
                     cands.sort(key=weight)
-                    take(rnd.choice(cands[: max(1, len(cands) // 2)]))
+                    take(rnd.choice(cands[:3]))
         for shape in ("reject", "total", "optabsent"):
             if not any(r["crate"] == crate[0] and r["shape"] == shape for r in chosen):
                 cands = [r for r in msgs if r["crate"] == crate[0] and r["shape"] == shape]
                 if cands:
                     cands.sort(key=weight)
-                    take(rnd.choice(cands[: max(1, len(cands) // 2)]))
+                    take(rnd.choice(cands[:3]))
     # 3. fill up to about 30 with a random mix
     for r in msgs:
         if len(chosen) >= 30:
             break
-        take(r)
+        if r["weight"] <= 30:  # measured: heavier messages exceed the quick-tier budget
+            take(r)
     # 4. snapshot objects: every kind occurring in objects, every crate twice, 10 in total at least
     nobj = 0
     okinds = sorted(set(k for r in objs for k in r["kinds"]))
@@ -792,7 +793,7 @@ def choose_quick(recs, seed):
             continue
         cands = [r for r in objs if k in r["kinds"]]
         cands.sort(key=weight)
-        take(rnd.choice(cands[: max(1, len(cands) // 2)]))
+        take(rnd.choice(cands[:3]))
     for crate in CRATES:
         while sum(1 for r in chosen if r["family"] == "obj" and r["crate"] == crate[0]) < 2:
             cands = [r for r in objs if r["crate"] == crate[0] and r["entry"]["name"] not in names]
